@@ -13,7 +13,7 @@ the Rust doc comments, independently of the mutation bookkeeping of the model:
 import LolHtml.Model.ElementOps
 
 namespace LolHtml.Spec.Edit
-open LolHtml LolHtml.Model
+open LolHtml LolHtml.EditModel
 
 /-! ### Token level -/
 
